@@ -290,6 +290,8 @@ def generate(seed: int, tier: str = "quick") -> dict:
         elif kind == "period":
             m = gen_mult()
             spec.update(period=k * m, pending=gen_pending(m), immediate=rp.random() < 0.4)
+            if k > 1 and rp.random() < 0.06:
+                spec["period"] = k * m + rp.randint(1, k - 1)  # not a whole number of bars: judged three-valued
         else:
             if rp.random() < 0.7:
                 ms = list(rp.choice(PERIOD_PRESETS))
@@ -299,6 +301,12 @@ def generate(seed: int, tier: str = "quick") -> dict:
             else:
                 ms = [gen_mult() for _ in range(rp.randint(1, 4))]
             spec.update(periods=[k * m for m in ms], pending=gen_pending(ms[0]), immediate=rp.random() < 0.4)
+            if k > 1 and rp.random() < 0.25:
+                # one period that is not a whole number of bars, among periods that are: whatever it does itself (judged
+                # three-valued), the others must go on firing - "several periods independently of one another"
+                spec["periods"].insert(rp.randint(0, len(spec["periods"])), k * rp.choice([1, 1, 2, 3, 7]) + rp.randint(1, k - 1))
+            elif k > 1 and rp.random() < 0.04:
+                spec["pending"] = spec["pending"] + rp.randint(1, k - 1)  # a delay off the grid makes every period ambiguous
         if rp.random() < 0.15:  # times given with a seconds part (30 s and more included): they denote their minute
             def sec(x):
                 return T.iso(datetime.fromisoformat(x) + timedelta(seconds=rp.choice([1, 29, 30, 31, 45, 59])))
@@ -345,6 +353,7 @@ class TriggerOracle(Oracle):
         self.denoted = {}
         self.feats = {}
         self.retired_at = {}
+        self.may = {}
         self.removed_at = {}
         self.bars_seen = 0
         sim.trig_objs, sim.trig_calls = {}, {}
@@ -359,6 +368,7 @@ class TriggerOracle(Oracle):
                 b = self.grid[max(o["bar"], 0)]
                 keep = (lambda t: t <= b) if o["phase"] in ("on_bar", "after_bar") else (lambda t: t < b)
                 self.denoted[tid] = [t for t in self.denoted[tid] if keep(t)]
+                self.may[tid] = {t for t in self.may.get(tid, ()) if keep(t)}
                 self.removed_at[tid] = o["bar"]
                 sim.count("fault:removed_by_strategy:" + str(o["a"].get("how", "remove")))
             return
@@ -366,7 +376,7 @@ class TriggerOracle(Oracle):
             return
         spec = o["a"]
         fb = max(o["bar"], 0)
-        den = T.denoted_bars(spec, self.grid, fb)
+        den = T.denoted_bars(spec, self.grid, fb, self.k)
         if outcome["status"] != "ok":
             if den:
                 sim.violate("c18.install", f"{spec['kind']}:constructor_raised:{outcome.get('exc')}", spec=spec, msg=outcome.get("msg"))
@@ -377,6 +387,9 @@ class TriggerOracle(Oracle):
         self.specs[tid] = spec
         self.first_bar[tid] = fb
         self.denoted[tid] = den
+        self.may[tid] = T.may_bars(spec, self.grid, fb, self.k)
+        if self.may[tid]:
+            sim.count("fault:period_off_the_bar_grid")
         self.feats[tid] = features(spec, self.grid, self.k, fb)
         for ft in self.feats[tid]:
             sim.count("fault:" + ft)
@@ -426,7 +439,7 @@ class TriggerOracle(Oracle):
                 fired[ts] = fired.get(ts, 0) + 1
             dset = set(den)
             missing = [t for t in den if t not in fired and (t_crash is None or t < t_crash)]
-            extra = sorted(t for t in fired if t not in dset)
+            extra = sorted(t for t in fired if t not in dset and t not in self.may.get(tid, ()))
             for cause, ts in self._by_cause(spec, tid, missing, True).items():
                 sim.violate(
                     "c18.fired_set", f"{kind}:missing:{cause}", spec=spec, n_missing=len(ts), missing=ts[:8], n_denoted=len(den),
@@ -594,9 +607,10 @@ RULE = (
 BUDGET = {"quick": {"runs": 4000, "wall": 50}, "thorough": {"runs": 150000, "wall": 1100}}
 LEVEL = "exploration"
 ASSUMPTIONS = [
-    "periods and pending delays are whole multiples of the bar interval: for other values the property's 'bars the "
-    "specification denotes' is ambiguous (fire never, or on the next bar, or when a due time happens to land on the grid), "
-    "so the generator does not produce them",
+    "a period or pending delay that is not a whole multiple of the bar interval is judged three-valued: what it denotes on "
+    "that grid is ambiguous (fire never, or on the next bar, or when a due time happens to land on the grid), so it is never "
+    "required to fire and may fire on any bar from its first due time on; periods of the same trigger that are whole "
+    "multiples keep their exact denotation (they fire independently of the ambiguous one)",
     "a time that is not a bar timestamp denotes no bar (fired set = denoted instants intersected with the bar grid); ranges "
     "select the bars whose timestamp lies in [start, end)",
     "a time given with a seconds part denotes its minute (the constructors document that they set the seconds to 0; the bar clock has minute resolution); lists of times / ranges / periods are non-empty; periods are >= one bar",
